@@ -81,6 +81,10 @@ def _packable(o, n):
     return (not isinstance(o, str)) and len(o) == n and all(0 <= r < 64 and a >= 0 and a % 64 == 0 for a, r in o)
 
 
+def _flatable(o, n):
+    return (not isinstance(o, str)) and len(o) == n and all(0 <= r < 2 ** 62 and 0 <= a < 2 ** 62 for a, r in o)
+
+
 def impl_assign_blocks(chunk):
     """chunk: list of (prefix, vals, k, gs).  Per block and copy: (w, one packed integer per case, in itertools.product order), or the
     explicit list of outputs if some output cannot be packed."""
@@ -97,6 +101,8 @@ def impl_assign_blocks(chunk):
                 w = max([1] + [(a + r).bit_length() for o in outs for a, r in o])
             if w and n * w <= 62:       # one integer per case: entry i in bits [w*i, w*(i+1))
                 per[c] = ("packed", (w, tuple(sum((a + r) << (w * i) for i, (a, r) in enumerate(o)) for o in outs)))
+            elif all(_flatable(o, len(s)) for o, s in zip(outs, inputs)):
+                per[c] = ("flat", tuple(outs))
             else:
                 per[c] = ("explicit", tuple(outs))
         res.append(per)
@@ -108,6 +114,10 @@ def _shape_of(n):
         if n % p == 0 and n > p:
             return (p, n // p)
     return (n,)
+
+
+def _same_view(a, b):
+    return a.data_ptr() == b.data_ptr() and tuple(a.shape) == tuple(b.shape) and a.dtype == b.dtype and a.stride() == b.stride()
 
 
 def _observe_buffers(d, dtype, me):
@@ -124,9 +134,7 @@ def _observe_buffers(d, dtype, me):
         views.append((int(buf.data_ptr() - base), int(buf.numel() * buf.element_size())))
     sel = d._distributor_selector
     loc = [b for b, s in zip(d._global_dist_blocked_buffers, sel) if s]
-    ok = ok and len(loc) == len(d._local_dist_blocked_buffers) and all(a is b for a, b in zip(loc, d._local_dist_blocked_buffers))
-    ok = ok and d._global_masked_dist_blocked_buffers is d._global_dist_blocked_buffers
-    ok = ok and d._local_masked_dist_blocked_buffers is d._local_dist_blocked_buffers
+    ok = ok and len(loc) == len(d._local_dist_blocked_buffers) and all(_same_view(a, b) for a, b in zip(loc, d._local_dist_blocked_buffers))
     lb = d._local_dist_buffer
     ok = ok and lb.untyped_storage().data_ptr() == st and lb.dtype == torch.int8
     return bool(ok), views, int(g.numel()), (int(lb.data_ptr() - base), int(lb.numel()))
@@ -296,9 +304,10 @@ def _run_cluster(job):
                 ok, views, total, local = _observe_buffers(d, dtype, me_attr)
                 sel = tuple(bool(x) for x in d._distributor_selector)
                 loc = [b for b, s in zip(d._global_blocked_params, sel) if s]
-                ok = ok and len(loc) == len(d._local_blocked_params) and all(a is b for a, b in zip(loc, d._local_blocked_params))
+                ok = ok and len(loc) == len(d._local_blocked_params) and all(_same_view(a, b) for a, b in zip(loc, d._local_blocked_params))
                 # global index of every local block through its (unique) composable block id
-                srcs = tuple(r for _, r in d._distribute_buffer_sizes(tuple(b.numel() * DSIZE[dt] for b in d._global_blocked_params)))
+                bsr = d._distribute_buffer_sizes(tuple(b.numel() * DSIZE[dt] for b in d._global_blocked_params))
+                srcs = tuple(r for _, r in bsr)
                 gl = d._construct_global_block_info_list(group_source_ranks=srcs)
                 ids = [bi.composable_block_ids for bi in gl]
                 ok = ok and len(set(ids)) == len(ids)
@@ -306,9 +315,9 @@ def _run_cluster(job):
                 for bi in d._local_block_info_list:
                     t = bi.allocate_zeros_tensor(size=(2, 2), dtype=torch.float32, device=torch.device("cpu"))
                     pos = [L.index(r) if r in L else -1 for r in t._c14_mesh]
-                    ok = ok and bi.get_tensor(t) is t
+                    ok = ok and _same_view(bi.get_tensor(t), t)
                     state.append((ids.index(bi.composable_block_ids), int(bi.group_source_rank), pos))
-                out.append({"ok": bool(ok), "numels": [int(b.numel()) for b in d._global_blocked_params], "sel": sel, "state": state,
+                out.append({"ok": bool(ok), "numels": [int(b.numel()) for b in d._global_blocked_params], "sel": sel, "state": state, "bsr": [(int(a), int(b)) for a, b in bsr],
                             "views": views, "total": total, "local": local})
             except Exception as ex:  # noqa
                 import traceback
@@ -605,9 +614,13 @@ def run(ck: Check) -> None:
         n = len(vals) ** k
         if kind == "packed":
             return (f"{fn_block} {zl(prefix)} {zl(vals)} {k}%nat {gs} {data[0]} {il(data[1])}", n)
+        if kind == "flat":
+            return (f"{fn_block}_flat {zl(prefix)} {zl(vals)} {k}%nat {gs} {il([x for o in data for e in o for x in e])}", n)
         return ("[" + "; ".join(fn_case(s, gs, o) for s, o in zip(block_inputs(a_blocks[bi]), data)) + "]", n)
 
     def agree_case(s, gs, o):
+        if _flatable(o, len(o)) and il(s) is not None:
+            return f"agree_flat {il(s)} {gs} {il(flat(o))}"
         return f"agree_assign {zl(s)} {gs} {obs_lit(o)}"
 
     def check_case(s, gs, o):
@@ -615,6 +628,8 @@ def run(ck: Check) -> None:
             return "true"                                   # group size 0 is outside the property
         if isinstance(o, str):
             return "false"                                  # the function must be total for gs >= 1
+        if _flatable(o, len(o)) and il(s) is not None:
+            return f"check_flat {il(s)} {gs} {il(flat(o))}"
         return f"C14_assign_checkbZ {zl(s)} {gs} {zpairs(o)}"
 
     tt = [time.time()]
@@ -759,16 +774,21 @@ def run(ck: Check) -> None:
                                       and all(src == p % gs and 0 <= i < n and r["sel"][i] for i, src, _ in r["state"])))
                 for i, src, pos in r["state"]:
                     parts.append(f"mesh_okb {src} {gs} {R} {zl(pos)}")
+                sizes = [x * DSIZE[job["dt"]] for x in r["numels"]]
+                if _packable(r["bsr"], len(sizes)) and il(flat(r["views"])) is not None:
+                    parts.append(f"check_buffers_flat {il(sizes)} {gs} {il([a + b for a, b in r['bsr']])} {il(flat(r['views']))}")
+                else:
+                    parts.append(f"C14_checkbZ {zl(sizes)} {gs} {zpairs(r['bsr'])} {zpairs(r['views'])}")
             items.append("forallb (fun b : bool => b) [" + "; ".join(parts) + "]")
         flatc = eval_bools(ck, "c14c_chk", items)
         failing = [j for j, b in zip(c_jobs, flatc) if b != "T"]
         if failing:
             failing.sort(key=lambda j: (j["R"], len(j["shapes"])))
             j = failing[0]
-            ck.report(None, f"{j['copy']} distributor violates C14 (selectors do not partition the blocks of a group, or a state mesh is not one-owner-per-group, or construction failed) "
+            ck.report(None, f"{j['copy']} distributor violates C14 (selectors do not partition the blocks of a group, or a state mesh is not one-owner-per-group, or the buffer layout is wrong, or construction failed) "
                             f"for group_size={j['gs']} replicas={j['R']} shapes={j['shapes']}; {len(failing)} failing scenarios",
                       {"kind": "cluster-property-fails", "job": j, "impl": c_out[c_jobs.index(j)], "n_failing": len(failing),
-                       "predicate": "partitionb / mesh_okb / owner == holder"})
+                       "predicate": "partitionb / mesh_okb / owner == holder / C14_checkbZ on the buffers"})
         else:
             job, p, r = c_bad[0]
             ck.report(None, f"model/implementation correspondence broken for the {job['copy']} constructor ({len(c_bad)} rank cases, first: position {p}, gs={job['gs']}, R={job['R']}) "
@@ -837,7 +857,7 @@ def run(ck: Check) -> None:
     total_eval = 3 * (n_block_cases + len(a_rand)) + n_b + len(c_cases)
     nontriv = (sum(len(v) ** k for p, v, k, gs in a_blocks if gs >= 2 and len(p) + k >= 2) + sum(1 for s, gs in a_rand if gs >= 2 and len(s) >= 2)
                + sum(1 for k in b_keys if k[2] >= 2 and len(k[0]) >= 2) + sum(1 for j in c_jobs if j["gs"] >= 2))
-    mid = a_keys[len(a_keys) // 2]
+    mid = next((k for k in a_keys if 4 <= len(k[0]) <= 9 and k[1] >= 2 and not isinstance(k[2], str)), a_keys[len(a_keys) // 2])
     bmid = b_keys[len(b_keys) // 2]
     ck.coverage.update({
         "evaluations": total_eval,
@@ -871,7 +891,7 @@ def run(ck: Check) -> None:
         "sorted(..., reverse=True) is a stable descending sort (model: sort_desc)",
         "torch.split/Tensor.split/view/data_ptr behave as observed (views identified by storage pointer, byte offset and length)",
         "stream C: the sequential stand-ins for dist / get_device_mesh / dtensor_zeros / _mesh_resources in harness/c14.py reproduce DeviceMesh group semantics",
-        "coq/exec/RunC14.v (enumeration of the exhaustive inputs in itertools.product order, unpacking of aligned*64+rank) is part of the comparison machinery",
+        "coq/exec/RunC14.v (enumeration of the exhaustive inputs in itertools.product order, unpacking of the outputs packed as aligned+rank, one bit field per block) is part of the comparison machinery",
     ]
     ck.notes.append(f"phase times (s): coq build + Print Assumptions {t_props:.1f}, implementation runs {t_impl:.1f}, case evaluation in coqc {t_coq:.1f} (A exhaustive {tt[1]-tt[0]:.1f}, A other {tt[2]-tt[1]:.1f}, B {tt[3]-tt[2]:.1f}, C {tt[4]-tt[3]:.1f})")
     ck.notes.append("lpt_four_thirds is fully proved (sharp form 4/3 - 1/(3 gs)); the brute-force comparison is reported as evidence only")
